@@ -18,7 +18,7 @@ namespace Influx.Spec.C18
 open Influx.Meta
 open Influx.Generated.Meta (MinNanoTime MaxNanoTime Deleted)
 
-def inRange (t : Time) : Bool := decide (MinNanoTime ≤ t) && decide (t ≤ MaxNanoTime)
+def inRange (t : Int) : Bool := decide (MinNanoTime ≤ t) && decide (t ≤ MaxNanoTime)
 
 /-- the quantifier domain, per operation -/
 def opInDomain : Op → Bool
@@ -31,7 +31,7 @@ def opInDomain : Op → Bool
   | _ => true
 
 /-- `[start, end)` contains `t` -/
-def within (g : ShardGroupInfo) (t : Time) : Bool := decide (g.StartTime ≤ t) && decide (t < g.EndTime)
+def within (g : ShardGroupInfo) (t : Int) : Bool := decide (g.StartTime ≤ t) && decide (t < g.EndTime)
 
 /-- two groups share a timestamp -/
 def overlap (a b : ShardGroupInfo) : Bool :=
@@ -58,7 +58,7 @@ def fullSame (b a : List (String × String × List ShardGroupInfo)) : Bool :=
 structure Accepted where
   db : String
   rp : String
-  t : Time
+  t : Int
   gid : Nat
 deriving Repr, DecidableEq
 
